@@ -59,11 +59,12 @@ impl Monitor for C03 {
             ("crash_points_after_unlink", tier.pick(1_000, 20_000)),
             ("crash_points_with_unflushed_calls", tier.pick(5_000, 100_000)),
             ("recovered_older_than_last_call_but_at_or_after_frontier", tier.pick(2_000, 40_000)),
+            ("recoveries_continued_with_a_persisted_call_and_a_restart", tier.pick(5_000, 100_000)),
             ("fsync_faults_reported_by_the_call_they_hit", tier.pick(300, 6_000)),
         ]
     }
     fn rule(&self) -> String {
-        "case = one generated history (8..40 calls with explicit persist calls) under one of DoNothing / OnDelay(1h,Flush) / OnDelay(1h,FlushAndFsync) / Always(Flush) / Always(FlushAndFsync); evaluation = one recovery of an image rebuilt at a crash point (after every file-system effect, plus sampled torn writes) under the process-crash model or one of the power-loss variants (never-synced file absent / zero-length / zero-filled; none or a prefix of the unsynced writes surviving); oracle: recovered state == state observed live after j calls for some j between the persist frontier (computed from the API contract only) and the in-flight call, up to a partially applied truncate/delete; plus, on one case in three, a replay of the same calls in which one fsync/fdatasync fails once with EIO: the call it hits must return an I/O error; distinct_nontrivial = distinct (case, effect index, loss model variant) whose frontier is at least one call behind the crash".into()
+        "case = one generated history (8..40 calls with explicit persist calls) under one of DoNothing / OnDelay(1h,Flush) / OnDelay(1h,FlushAndFsync) / Always(Flush) / Always(FlushAndFsync); evaluation = one recovery of an image rebuilt at a crash point (after every file-system effect, plus sampled torn writes) under the process-crash model or one of the power-loss variants (never-synced file absent / zero-length / zero-filled; none or a prefix of the unsynced writes surviving); oracle: recovered state == state observed live after j calls for some j between the persist frontier (computed from the API contract only) and the in-flight call, up to a partially applied truncate/delete; one recovery in twelve (one in four of the images that end inside an entry of several frames) goes on with two create_queue calls + an append + persist(FlushAndFsync) on the recovered log and a clean restart, after which that queue and record must be there; plus, on one case in three, a replay of the same calls in which one fsync/fdatasync fails once with EIO: the call it hits must return an I/O error; distinct_nontrivial = distinct (case, effect index, loss model variant) whose frontier is at least one call behind the crash".into()
     }
     fn assumptions(&self) -> Vec<String> {
         vec![
@@ -312,10 +313,63 @@ fn judge_image(
     acc: &mut Acc,
 ) -> bool {
     mat.sync(img);
-    let (r, sut, evs) = recover(&mat.dir, run.policy, run.key);
+    let (r, mut sut, evs) = recover(&mat.dir, run.policy, run.key);
     mat.touched_by(&evs);
+    // One recovery in twelve goes on: a queue is created on the recovered log (persisted by
+    // contract under every policy), a record appended and persist(FlushAndFsync) called; the
+    // log is then shut down and opened again.  What was persisted AFTER a crash recovery must
+    // survive the next restart like anything else (a torn tail left by the first crash must
+    // not swallow it).
+    let mut lost_after_recovery: Option<serde_json::Value> = None;
+    // ... one time in four when the image ends inside an entry of several frames (its last valid frame is
+    // a First or Middle frame), one recovery in twelve otherwise
+    let torn_tail = opkind.starts_with("append") && {
+        let newest = img.files.iter().filter(|(n, d)| n.starts_with("wal-") && d.iter().any(|x| *x != 0)).map(|(_, d)| d).last();
+        newest.map(|d| crate::layout::parse_frames(d).last().map(|f| f.crc_ok && (f.ftype == 2 || f.ftype == 3)).unwrap_or(false)).unwrap_or(false)
+    };
+    if torn_tail {
+        acc.count("recoveries_of_an_image_ending_inside_a_multi_frame_entry");
+    }
+    if (torn_tail && acc.get("recoveries_of_an_image_ending_inside_a_multi_frame_entry") % 4 == 1) || acc.get("recoveries_continued_with_a_persisted_call_and_a_restart") * 12 <= acc.evaluations {
+        if let (Recovered::Ok(_), Some(s)) = (&r, sut.as_mut()) {
+            // (the first queue gets no record: an append entry would re-create it at replay)
+            let q0 = "c03-created-after-recovery-left-empty".to_string();
+            let q = "c03-created-after-recovery".to_string();
+            let o0 = s.apply(2_999_999, &Op::Create { q: q0.clone() });
+            let o1 = s.apply(3_000_000, &Op::Create { q: q.clone() });
+            let o2 = s.apply(3_000_001, &Op::Append { q: q.clone(), pos: None, lens: vec![40], chained: false });
+            let o3 = s.apply(3_000_002, &Op::Persist { fsync: true });
+            let all_ok = matches!(o0, Outcome::Created { .. }) && matches!(o1, Outcome::Created { .. }) && matches!(o2, Outcome::Appended { last: Some(0), .. }) && matches!(o3, Outcome::Persisted);
+            let reopened = if all_ok { s.reopen(3_000_003).is_ok() } else { false };
+            let evs2 = crate::shim::take_events(&mat.dir);
+            crate::shim::reset();
+            mat.touched_by(&evs2);
+            if all_ok && reopened {
+                acc.count("recoveries_continued_with_a_persisted_call_and_a_restart");
+                let ok = crate::ops::Snapshot::take(s.log()).ok().map(|sn| sn.queues.get(&q).map(|g| g.recs.len() == 1 && g.recs[0].pos == 0 && g.recs[0].len == 40).unwrap_or(false) && sn.queues.get(&q0).map(|g| g.recs.is_empty()).unwrap_or(false)).unwrap_or(false);
+                if !ok {
+                    lost_after_recovery = Some(json!({"continuation": ["create_queue(c03-created-after-recovery-left-empty)", "create_queue(c03-created-after-recovery)", "append_record(40 bytes) -> position 0", "persist(FlushAndFsync)", "clean restart"], "observed": "one of the two queues, or the record, is missing after the restart"}));
+                }
+            } else {
+                // a refused call or a failed restart on a recovered log is C02's subject
+                acc.count("continuations_after_recovery_not_completed_(C02_territory)");
+                mat.invalidate_all();
+                if !reopened {
+                    sut = None;
+                }
+            }
+        }
+    }
     finish(sut, mat);
     acc.eval();
+    if let Some(obs) = lost_after_recovery {
+        acc.violation(
+            format!("C03/{}/{}/persisted-after-recovery-lost-at-the-next-restart/{}/after:{}", model, run.policy.name(), opkind, evkind),
+            case,
+            json!({"history": run.history_json(hi.min(run.ops.len())), "image": img.describe(), "crash_point": point, "observation": obs}),
+        );
+        return false;
+    }
     let sig = |what: &str| format!("C03/{}/{}/{}/{}/after:{}", model, run.policy.name(), what, opkind, evkind);
     let detail = |extra: serde_json::Value| {
         json!({
